@@ -24,6 +24,49 @@ def run(ctx: Ctx, chk) -> None:
     chk.run_rule(mut1, ctx)
     chk.run_rule(sleep1, ctx)
     chk.run_rule(asleep_during_flush, ctx)
+    chk.run_rule(sent_is_forgotten, ctx)
+
+
+def sent_is_forgotten(ctx: Ctx, chk) -> None:
+    rule = "ATOM-2"
+    chk.rule(rule, "in the flush the entry that is forgotten after a write is the very object that was written: the identity test guarding the removal compares the current entry with the expression handed to send - if the flush writes whatever is *currently* stored but guards with the snapshot object (or the other way round), a command replaced during an earlier write is written, stays parked and is written again")
+    from ..prov import Canon
+
+    n = 0
+    for f in sb.flush_functions(ctx):
+        try:
+            fl = sb.analyse_flush(ctx, f)
+        except sb.BatchedFlush:
+            continue
+        cn = Canon(ctx.I, f, "")
+        sends = [sb.is_send(s.ast) for s in fl.sends if s.ast is not None]
+        sends = [s for s in sends if s is not None and s.args]
+        if not sends:
+            continue
+        sent = {cn.canon(s.args[0]) for s in sends}
+        for r in fl.removes:
+            # identity tests that dominate the removal
+            for t in fl.cfg.nodes:
+                if t.kind != "test" or not fl.cfg.dominates(t, r):
+                    continue
+                for cmp_ in [x for x in ast.walk(t.ast) if isinstance(x, ast.Compare) and len(x.ops) == 1 and isinstance(x.ops[0], (ast.Is, ast.IsNot, ast.Eq, ast.NotEq))]:
+                    left, right = cmp_.left, cmp_.comparators[0]
+                    cur = None
+                    for a, b in ((left, right), (right, left)):
+                        inner = a.value if isinstance(a, ast.NamedExpr) else a
+                        if (isinstance(inner, ast.Call) and isinstance(inner.func, ast.Attribute) and inner.func.attr == "get" and sb.buffer_attr(inner.func.value) == "set_messages") or (isinstance(inner, ast.Subscript) and sb.buffer_attr(inner.value) == "set_messages"):
+                            cur = b
+                    if cur is None or (isinstance(cur, ast.Constant) and cur.value is None):
+                        continue
+                    n += 1
+                    chk.instance(rule)
+                    key = fkey(f, cmp_) + "::guards-what-was-sent"
+                    got = cn.canon(cur)
+                    if got in sent:
+                        chk.ok(rule, key, f"the removal is guarded by identity with `{norm(cur)}`, the object handed to send", ctx.loc(f, cmp_))
+                    else:
+                        chk.refute(rule, key, f"the removal is guarded by identity with `{norm(cur)}` but the flush writes `{sorted(sent)[0][:60]}`: when the entry was replaced while an earlier command was being written, the newer command is written, the guard (on the older object) fails, the entry stays parked and the same value is written again at the next wake", ctx.loc(f, cmp_))
+    chk.notes["atom2_identity_guards"] = n  # no floor: a guard that lives in a removal helper is judged by WRITE-THEN-FORGET / ATOM-1
 
 
 def asleep_during_flush(ctx: Ctx, chk) -> None:
